@@ -848,3 +848,37 @@ def check_C03(ctx):
         p = ctx.write_scn(_codec_instances(ctx))
         run = ctx.drive("codec", scn=p, n=0, flags=["--construct"])
         ctx.validate("Trace_Codec", run, shards=16)
+
+
+@prop("C17", "scenario = one typed value (JSON form round trip, decoded from an each-choice schema instance and classified by the 'fresh' profile of the "
+             "schema interpreter) or one metadata / datum / JSON tree or byte string converted under one schema and back; trees: the bounded universe "
+             "of MC_MetadataJson (each-choice over leaf classes: integer edges, text plain / hex-looking / numeric-looking / 64 bytes / multi-byte, "
+             "bytes 0 / 64 / non-UTF-8 / control, containers to depth 2, documents inside, outside and in non-normal form of every schema) plus "
+             "seeded random trees to depth 3; distinct = (conversion, schema, outcome class, normal-form / ascending flag)")
+def check_C17(ctx):
+    ctx.assumptions += ["JSON documents cross the trace boundary as tagged trees produced by the harness with serde_json (the same parser the library uses); the JSON text syntax itself is not under test",
+                        "documents with duplicate member names are not generated (serde_json keeps the last)",
+                        "generic JSON part: the demand depends on the class the specification assigns to the instance (fresh / retained encoding detail / unsupported content), see Trace_Codec.tla"]
+    if ctx.replay:
+        ctx.run_replay()
+        return
+    r = ctx.mc("MC_MetadataJson", cfg="MC_MetadataJson.cfg", workers=8, timeout=1800)
+    p = ctx.write_scn(r.by("SCN"))
+    run = ctx.drive("json", scn=p, n=20000 if ctx.thorough else 2500)
+
+    def corrupt(recs, rnd):
+        n = 0
+        for r in recs:
+            if r.get("ev") == "MdEnc" and isinstance(r.get("r"), dict) and r["r"].get("ok") and r["r"]["md"] and r["r"]["md"][0] < 0x18:
+                r["r"]["md"][0] ^= 1          # another small integer
+                n += 1
+        return n > 0
+    em = ctx.validate("Trace_MetadataJson", run, shards=16, corrupt=corrupt)
+    if em is not None and not ctx.selftest:
+        tf = [e for e in em if e.get("t") == "TOOLFAIL"]
+        if tf:
+            raise ToolError("harness / specification problem (not a verdict): %s" % json.dumps(tf[0])[:300])
+    if not ctx.selftest:
+        p = ctx.write_scn(_codec_instances(ctx), name="scn_codec.ndjson")
+        run = ctx.drive("codec", scn=p, n=0, flags=["--construct"], name="codec")
+        ctx.validate("Trace_Codec", run, shards=16)
